@@ -204,7 +204,7 @@ package common
 // f = function() return f() end` sees f; until fix cbb7602 a cursor inside that expression did not)
 
 //@ func (*VarInfo).IsCorrectPosition
-//@   props C05 C06 C07 C11 C13
+//@   props C05 C06 C07 C11 C13 C14
 //@   sweep C01
 //@   ensures[is-lua-visibility] result <==> visible(varInfo, loc.StartLine, loc.StartColumn, loc.EndLine, loc.EndColumn)
 // from the property statement: "a local is not visible inside its own initialiser" - for every kind of initialiser and
@@ -576,4 +576,57 @@ package common
 //@   ensures[a-parenthesised-prefix-contributes-the-locations-of-what-it-encloses] typeis(node, "*ast.ParensExp") ==> hits("GetTableLocList#0") == 1 && len(locList) == len(lastresult("GetTableLocList#0"))
 //@   ensures[an-access-contributes-prefix-then-key] typeis(node, "*ast.TableAccessExp") ==> hits("GetTableLocList#1") == 1 && hits("GetTableLocList#2") == 1 && len(locList) == len(lastresult("GetTableLocList#1")) + len(lastresult("GetTableLocList#2"))
 //@   ensures[a-name-or-a-string-contributes-exactly-one-location] typeis(node, "*ast.NameExp") || typeis(node, "*ast.StringExp") ==> len(locList) == 1
+//@ end
+
+// ---- C15: the type table of a file ----
+// a comment block can hold classes AND aliases (an ---@alias line directly below a class's ---@field lines): every class
+// and every alias of every block is registered under its own name - the two kinds do not exclude each other
+//@ func (*AnnotateFile).generateNewType
+//@   props C15
+//@   requires[type-table-is-created-with-the-file] af.CreateTypeMap != nil
+//@   loop range:fragment.ClassInfo.ClassList invariant hits("insertNewType#0") == atentry(hits("insertNewType#0")) + rangeindex + 1 && rangeindex + 1 <= len(fragment.ClassInfo.ClassList) && hits("insertNewType#1") == atentry(hits("insertNewType#1"))
+//@   loop range:fragment.AliasInfo.AliasList invariant hits("insertNewType#1") == atentry(hits("insertNewType#1")) + rangeindex + 1 && rangeindex + 1 <= len(fragment.AliasInfo.AliasList) && hits("insertNewType#0") == atentry(hits("insertNewType#0"))
+//@   loop range:af.sortFragement.results step [every-class-and-every-alias-of-a-block-is-registered] (fragment.ClassInfo != nil ==> hits("insertNewType#0") == prev(hits("insertNewType#0")) + len(fragment.ClassInfo.ClassList))
+//@        && (fragment.AliasInfo != nil ==> hits("insertNewType#1") == prev(hits("insertNewType#1")) + len(fragment.AliasInfo.AliasList))
+//@   loop range:af.sortFragement.results exits-early-only-if [every-block-is-visited] false
+//@   at call insertNewType#0 before assert[class-registered-under-its-own-name] streq(arg1, oneClass.ClassState.Name) && arg2.ClassInfo == oneClass && arg2.LastLine == fragment.LastLine
+//@   at call insertNewType#1 before assert[alias-registered-under-its-own-name] streq(arg1, oneAlias.AliasState.Name) && arg2.AliasInfo == oneAlias && arg2.LastLine == fragment.LastLine
+//@ end
+
+// ---- C17: what the type-18 (annotation) switches gate ----
+// They gate the recording of annotation warnings and nothing else: every head comment block is parsed and analysed, and
+// its ---@enum start / end markers are collected (the enum check, type 29, needs them) BEFORE either switch is asked -
+// switching type 18 off, globally or for the file, must not remove the diagnostics of another type
+//@ func (*AnnotateFile).AnalysisAllComment
+//@   props C17
+//@   at call IsGlobalIgnoreErrType#0 before assert[the-global-switch-asked-is-type-18] arg1 == CheckErrorAnnotate
+//@   at call IsIgnoreErrorFile#0 before assert[the-file-rule-asked-is-type-18-for-this-file] streq(arg1, af.LuaFile) && arg2 == CheckErrorAnnotate
+//@   at call IsGlobalIgnoreErrType#0 before assert[block-is-analysed-and-its-enum-markers-collected-before-the-switch-is-asked] hits("analysisAnnotateFragement#0") == hits("ParseCommentFragment#0") && rangeindex + 1 >= len(annotateFragment.Stats)
+//@   loop range:commentMap step [every-head-comment-block-is-analysed-whatever-the-switches-say] commentInfo.HeadFlag ==> hits("ParseCommentFragment#0") == prev(hits("ParseCommentFragment#0")) + 1 && hits("analysisAnnotateFragement#0") == prev(hits("analysisAnnotateFragement#0")) + 1
+//@   loop range:commentMap invariant hits("analysisAnnotateFragement#0") == hits("ParseCommentFragment#0")
+//@   loop range:commentMap exits-early-only-if [every-comment-block-is-visited] false
+//@   unchecked typeinv:AnnotateFile.0(af)#0 entries of the file's type table are added by insertNewType only, each a non-nil declaration (its requires, proved in generateNewType); here the table is havocked by the summaries of the callees, so the quantified invariant is assumed at exit
+//@ end
+
+// ---- C20 / C04: the location of an expression ----
+// The reports of checks 14, 15, 16 and 19 are placed by - and, for 15 / 16, made only when - both operands have a
+// location: every kind of expression the parser produces has one, its own (fix 949a855 added the literals; a kind that
+// falls out of the switch silently drops the reports whose operand it is)
+//@ func GetExpLoc
+//@   props C20 C04
+//@   ensures[stringexp-has-its-own-location] typeis(node, "*ast.StringExp") ==> loc == as(node, "*ast.StringExp").Loc
+//@   ensures[nameexp-has-its-own-location] typeis(node, "*ast.NameExp") ==> loc == as(node, "*ast.NameExp").Loc
+//@   ensures[parensexp-has-its-own-location] typeis(node, "*ast.ParensExp") ==> loc == as(node, "*ast.ParensExp").Loc
+//@   ensures[funcdefexp-has-its-own-location] typeis(node, "*ast.FuncDefExp") ==> loc == as(node, "*ast.FuncDefExp").Loc
+//@   ensures[tableconstructorexp-has-its-own-location] typeis(node, "*ast.TableConstructorExp") ==> loc == as(node, "*ast.TableConstructorExp").Loc
+//@   ensures[binopexp-has-its-own-location] typeis(node, "*ast.BinopExp") ==> loc == as(node, "*ast.BinopExp").Loc
+//@   ensures[unopexp-has-its-own-location] typeis(node, "*ast.UnopExp") ==> loc == as(node, "*ast.UnopExp").Loc
+//@   ensures[varargexp-has-its-own-location] typeis(node, "*ast.VarargExp") ==> loc == as(node, "*ast.VarargExp").Loc
+//@   ensures[tableaccessexp-has-its-own-location] typeis(node, "*ast.TableAccessExp") ==> loc == as(node, "*ast.TableAccessExp").Loc
+//@   ensures[funccallexp-has-its-own-location] typeis(node, "*ast.FuncCallExp") ==> loc == as(node, "*ast.FuncCallExp").Loc
+//@   ensures[nilexp-has-its-own-location] typeis(node, "*ast.NilExp") ==> loc == as(node, "*ast.NilExp").Loc
+//@   ensures[trueexp-has-its-own-location] typeis(node, "*ast.TrueExp") ==> loc == as(node, "*ast.TrueExp").Loc
+//@   ensures[falseexp-has-its-own-location] typeis(node, "*ast.FalseExp") ==> loc == as(node, "*ast.FalseExp").Loc
+//@   ensures[floatexp-has-its-own-location] typeis(node, "*ast.FloatExp") ==> loc == as(node, "*ast.FloatExp").Loc
+//@   ensures[integerexp-has-its-own-location] typeis(node, "*ast.IntegerExp") ==> loc == as(node, "*ast.IntegerExp").Loc
 //@ end
